@@ -502,6 +502,9 @@ static void generate_minimal_hash(Ports &p, Port_Matcher &pm)
     for(unsigned i=0; i<p.ports.size(); ++i) {
         if(strchr(p.ports[i].name, '#'))
             enump = true;
+        //alternatives ("{a,b}") are a pattern as well, not literal text
+        if(strchr(p.ports[i].name, '{'))
+            enump = true;
         //the hash only looks at the address up to the first '/', so it
         //can not find names like "a/b" which have more behind it
         const char *slash = strchr(p.ports[i].name, '/');
